@@ -15,6 +15,16 @@ theorem BlockOpt.size_eq {b : BlockOpt} (h : b.szx ≤ 6) : b.size = blockSize b
   unfold BlockOpt.size blockSize
   rw [Nat.min_eq_left h]
 
+theorem BlockOpt.start_eq_zero {b : BlockOpt} : b.start = 0 ↔ b.num = 0 := by
+  unfold BlockOpt.start
+  have := b.size_pos
+  constructor
+  · intro h
+    rcases Nat.mul_eq_zero.mp h with h | h
+    · exact h
+    · omega
+  · intro h; rw [h, Nat.zero_mul]
+
 theorem BlockOpt.size_ge (b : BlockOpt) : 16 ≤ b.size := by
   unfold BlockOpt.size
   calc 16 = 2 ^ 4 := by decide
@@ -156,7 +166,8 @@ theorem step_b2_none {cfg : Cfg} {t : Req} {a : Asm} {cur : Req} {r : Resp} (h :
 theorem step_b2_some {cfg : Cfg} {t : Req} {a : Asm} {cur : Req} {r : Resp} {b : BlockOpt}
     (h : r.block2 = some b) :
     step cfg (.b2 t a cur) r =
-      if !b.validFor r.payload.length then .done (.error .unexpectedBlock2)
+      if r.code ≠ a.code then .done (.error .unexpectedBlock2)
+      else if !b.validFor r.payload.length then .done (.error .unexpectedBlock2)
       else if b.start ≠ a.payload.length then .done (.error .notImplemented)
       else if r.etag ≠ a.etag then .done (.error .resourceChanged)
       else if !b.more then .done (.ok { code := a.code, etag := a.etag, payload := a.payload ++ r.payload })
@@ -169,7 +180,8 @@ theorem completeBlock2_none {cfg : Cfg} {t : Req} {r : Resp} (h : r.block2 = non
 
 theorem completeBlock2_some {cfg : Cfg} {t : Req} {r : Resp} {b : BlockOpt} (h : r.block2 = some b) :
     completeBlock2 cfg t r =
-      if !b.more then .done (.ok (bodyOf r))
+      if b.start ≠ 0 then .done (.error .unexpectedBlock2)
+      else if !b.more then .done (.ok (bodyOf r))
       else if b.num ≠ 0 then .done (.error .unexpectedBlock2)
       else if !b.validFor r.payload.length then .done (.error .unexpectedBlock2)
       else enterB2 cfg t { code := r.code, etag := r.etag, payload := r.payload, block2 := b } := by
